@@ -151,6 +151,7 @@ impl Op {
 pub enum Er {
     NotFound,
     Exists,
+    Other,
 }
 
 /// What a call returned, expressed in keys and values only.
